@@ -296,6 +296,13 @@ class ExtMixin(object):
     def x_sorted(self, args, kwargs, node, env):
         v = args[0]
         if kwargs:
+            if set(kwargs) == {"key"} and isinstance(kwargs["key"], CmpKeyV):
+                # sorted(xs, key=cmp_to_key(f)) is list(xs) followed by .sort(key=cmp_to_key(f))
+                src = self.as_iterable(v, node)
+                if isinstance(src, ListV) and not getattr(src, "tail", None):
+                    out = ListV(list(src.items), "list")
+                    self.m_ListV_sort(out, [], kwargs, node)
+                    return out
             self.err(node, "sorted with key/reverse")
         if isinstance(v, DictV):
             v = ListV([k for k, _ in v.items.values()], "list")
